@@ -20,7 +20,7 @@ class C15(Property):
     id = "C15"
     # C15Full imports C15Velocity and C15Ieee; chain: C15Velocity ▸ C15ShiftLines ▸ C15Shift (▸ Lemmas/ShiftLaws) ▸ C15Map ▸ C15; C15Ieee ▸ C15Map; all in namespace Rosu.C15
     lean_module = "RosuModel.Props.C15Full"
-    theorem_modules = ['RosuModel.Props.C15Velocity', 'RosuModel.Props.C15Ieee']   # files whose top-level theorems are all audited
+    theorem_modules = ['RosuModel.Props.C15Velocity', 'RosuModel.Props.C15Ieee', 'RosuModel.Props.C15IeeeDecoded']   # files whose top-level theorems are all audited
     namespace = "Rosu.C15"
     design_ref = "5.15"
     required_theorems = ["sorted_perm", "sorted_nondecreasing", "sorted_stable", "postProcessBreaks_length", "orNewCombo_only_sets",
